@@ -14,6 +14,12 @@ from .index import Func, RepoIndex
 from .inline import canon_calls, inline_pure_exprs, inlined_function
 
 _CACHE: Dict[tuple, Tuple[ast.FunctionDef, GuardWalk, list]] = {}
+# methods of the library's classes that rules and atom recognisers read by name
+VOCABULARY = ('contains', 'positions', 'front', 'swap', 'subgrid', 'object_types', 'type_index',
+              'num_states', 'is_move', 'from_orientation', 'from_shape', 'as_radians',
+              'y_coordinates', 'x_coordinates', 'validate', 'register', 'from_name',
+              'as_position', 'functional_step', 'functional_reset', 'functional_observation',
+              'convert', 'set_seed')
 
 
 def view(index: RepoIndex, func: Func, cross: Tuple[str, ...] = (),
@@ -47,6 +53,13 @@ def component_node(index: RepoIndex, func: Func) -> Tuple[ast.FunctionDef, list]
     node, inlined = inlined_function(index, func)
     node = canon_calls(index, func.module, node)
     ex = inline_pure_exprs(index, func.module, func.cls, node, cross=('choice',))
+    if ast.dump(ex) != ast.dump(node):
+        node = ex
+    # pure methods a maintainer added to the library's classes (`door.is_unlocked_by(key)`,
+    # `grid.positions_of(T)`) are read as the expression they stand for; the methods the rules
+    # know by name stay calls
+    from .inline import inline_methods_by_name
+    ex = inline_methods_by_name(index, node, exclude=VOCABULARY)
     if ast.dump(ex) != ast.dump(node):
         node = ex
     _CACHE[key] = (node, None, inlined)
